@@ -105,36 +105,39 @@ func judge(in string) bool {
 
 func enumerate(t *testing.T, alpha []string, maxLen int) {
 	shard, shards := stats.EnvInt("VERIF_SHARD", 0), stats.EnvInt("VERIF_SHARDS", 1)
-	n, cnt := 0, 0
-	var rec func(prefix string, depth int)
-	rec = func(prefix string, depth int) {
-		if stats.Failed() {
-			return
-		}
-		// shards split the space by the first two symbols; shorter strings belong to shard 0
-		if depth == 2 {
-			n++
-			if n%shards != shard {
+	cnt := 0
+	// shortest strings first, so that the first failure is a minimal one
+	for want := 0; want <= maxLen && !stats.Failed(); want++ {
+		n := 0
+		var rec func(prefix string, depth int)
+		rec = func(prefix string, depth int) {
+			if stats.Failed() {
 				return
 			}
-		}
-		if depth >= 2 || shard == 0 {
-			if cnt++; cnt%40000 == 7 {
-				stats.Sample(cleanCase{stats.B(prefix)})
+			// shards split the space by the first two symbols; shorter strings belong to shard 0
+			if depth == 2 {
+				n++
+				if n%shards != shard {
+					return
+				}
 			}
-			if !judge(prefix) {
-				t.Errorf("violation on %q", prefix)
+			if depth == want {
+				if depth >= 2 || shard == 0 {
+					if cnt++; cnt%40000 == 7 {
+						stats.Sample(cleanCase{stats.B(prefix)})
+					}
+					if !judge(prefix) {
+						t.Errorf("violation on %q", prefix)
+					}
+				}
 				return
 			}
+			for _, a := range alpha {
+				rec(prefix+a, depth+1)
+			}
 		}
-		if depth == maxLen {
-			return
-		}
-		for _, a := range alpha {
-			rec(prefix+a, depth+1)
-		}
+		rec("", 0)
 	}
-	rec("", 0)
 }
 
 func TestExhaustive(t *testing.T) {
